@@ -82,6 +82,28 @@ theorem evalHs_plain (hp : Heap) (lk : Name → Except Err H) :
     simp only [evalH.evalHs]; rw [evalH_plain hp lk e h.1, evalHs_plain hp lk es h.2]
 end
 
+/-! ### subscription: only an unresolved proxy in head position is special -/
+
+theorem subH_closed (v : H) (args : List H) (h : v.closed = true) : subH v args = .ok (.sub v args) := by
+  cases v <;> simp_all [subH, H.closed]
+
+theorem frameless_sub (v : H) (args : List H) :
+    (H.sub v args).frameless = (v.frameless && H.frameless.framelessL args) := by simp [H.frameless]
+
+theorem subH_frameless (v w : H) (args : List H) (h : subH v args = .ok w) (hv : v.frameless = true)
+    (ha : H.frameless.framelessL args = true) : w.frameless = true := by
+  cases v with
+  | fwd p =>
+    simp only [subH] at h
+    split at h
+    · cases h
+    · cases h; simpa [H.frameless] using hv
+  | _ => simp only [subH, Except.ok.injEq] at h; subst h; rw [frameless_sub, hv, ha]; rfl
+
+/-- the subscripted proxy resolves exactly as the subscriptable one it was made from: same name, same parent
+    code object -/
+theorem resolveFresh_subbed (s : St) (p : Proxy) (b : Bool) : resolveFresh s { p with subbed := b } = resolveFresh s p := rfl
+
 /-! ### hints without proxies are checked as they are, whatever the state -/
 
 mutual
@@ -324,7 +346,8 @@ theorem evalH_closed (hp : Heap) (lk : Name → Except Err H) (hh : HeapClosed h
       cases hes : evalH.evalHs hp lk true es with
       | error err => simp [he, hes, Except.bind] at h
       | ok ws =>
-        simp only [he, hes, Except.bind, Except.ok.injEq] at h
+        simp only [he, hes, Except.bind] at h
+        rw [subH_closed w ws (evalH_closed hp lk hh hl e w he), Except.ok.injEq] at h
         subst h
         simp [H.closed, evalH_closed hp lk hh hl e w he, evalHs_closed hp lk hh hl es ws hes]
   | .bor a b, v, h => by
@@ -582,9 +605,13 @@ theorem late_core : ∀ (e : HExpr) (h v : H), e.plain = true →
     obtain ⟨hs', hd3, hd4⟩ := bind_ok _ _ _ hd2
     obtain ⟨v', hn1, hn2⟩ := bind_ok _ _ _ hnow
     obtain ⟨vs', hn3, hn4⟩ := bind_ok _ _ _ hn2
+    -- the head was bound at decoration time: the same closed object then and now, no proxy to subscript
+    obtain ⟨heq, hcv⟩ := late_bound_expr s0 s fr hmod hcl0 hkeep hheap hhc hcl e h' v' hs.1 hd1 hn1
+    subst heq
+    rw [subH_closed h' _ hcv] at hd4 hn4
     cases hd4; cases hn4
     simp only [forceFresh, RH.erase, embed]
-    rw [late_core e h' v' hp.1 hs.1 hd1 hn1, late_coreL es hs' vs' hp.2 hs.2 hd3 hn3]
+    rw [forceFresh_closed s h' hcv, embed_erase, late_coreL es hs' vs' hp.2 hs.2 hd3 hn3]
   | .bor a b, h, v, hp, hs, hdec, hnow => by
     simp only [HExpr.plain, Bool.and_eq_true] at hp
     simp only [lateSafe, Bool.and_eq_true] at hs
@@ -678,8 +705,7 @@ theorem evalH_frameless (hp : Heap) (lk : Name → Except Err H) (tr : Bool) (hh
     simp only [evalH] at h
     obtain ⟨w, h1, h2⟩ := bind_ok _ _ _ h
     obtain ⟨ws, h3, h4⟩ := bind_ok _ _ _ h2
-    cases h4
-    simp [H.frameless, evalH_frameless hp lk tr hh hl e w h1, evalHs_frameless hp lk tr hh hl es ws h3]
+    exact subH_frameless w v ws h4 (evalH_frameless hp lk tr hh hl e w h1) (evalHs_frameless hp lk tr hh hl es ws h3)
   | .bor a b, v, h => by
     simp only [evalH] at h
     obtain ⟨x, h1, h2⟩ := bind_ok _ _ _ h
@@ -1148,11 +1174,12 @@ theorem leaves_core (hp : Heap) (py : Name → Except Err H) (rs : HExpr → Exc
     simp only [evalH] at h
     obtain ⟨x, h1, h2⟩ := bind_ok _ _ _ h
     obtain ⟨xs, h3, h4⟩ := bind_ok _ _ _ h2
+    have hx : x.closed = true := evalH_py_closed hp py hh hl e x hp'.1 h1
+    rw [subH_closed x xs hx] at h4
     cases h4
-    obtain ⟨w, hw1, hw2⟩ := leaves_core hp py rs q hh hl hrs e x hp'.1 hb.1 h1
     obtain ⟨ws, hws1, hws2⟩ := leaves_coreL hp py rs q hh hl hrs es xs hp'.2 hb.2 h3
-    refine ⟨.sub w ws, by simp [quoteLeaves, evalH, hw1, hws1, Except.bind], ?_⟩
-    simp [resolveH, hw2, hws2, Except.bind]
+    refine ⟨.sub x ws, by simp [quoteLeaves, evalH, h1, hws1, Except.bind, subH_closed x ws hx], ?_⟩
+    simp [resolveH, resolveH_closed rs x hx, hws2, Except.bind]
   | .bor _ _, _, _, hb, _ => by simp [HExpr.borFree] at hb
   | .lit l, v, _, _, h => by
     simp only [evalH, Except.ok.injEq] at h; subst h
